@@ -567,7 +567,7 @@ def judge_tu(b, d, tu, res, case):
             res.violation(key, witness=dg.render_decl(m), original=dg.render_decl(by[i]),
                           got=str(st[i][1:])[:300], expected="g++ accepts the declaration and the printed type is exactly "
                           "the declared one", tu={"env": tu["env"], "late_env": tu.get("late_env", []),
-                                                  "hosts": [h for h in tu["hosts"] if h["id"] == m["site"]],
+                                                  "hosts": tu["hosts"],
                                                   "decls": [m]})
     res.count("interrogate_runs", ev.runs)
 
